@@ -948,7 +948,11 @@ pub fn parse(lex_tokens: &Vec<LexerToken>) -> Result<ParseResult, CompilerError>
 
         // whitespace and annotations are transparent for composition: the check is between the significant
         // tokens on either side of them (a list is allowed where whitespace set check_for_list)
-        let is_trivia = secondary_definition == SecondaryDefinition::Whitespace || secondary_definition == SecondaryDefinition::Annotation;
+        // so is a separator inside a group, which is treated as whitespace there
+        let separator_is_whitespace = secondary_definition == SecondaryDefinition::Subexpression
+            && under_group.and_then(|group| nodes.get(group)).map(|node: &ParseNode| node.definition == Definition::Group).unwrap_or(false);
+
+        let is_trivia = secondary_definition == SecondaryDefinition::Whitespace || secondary_definition == SecondaryDefinition::Annotation || separator_is_whitespace;
 
         if is_trivia {
             block_before_trivia = ended_block;
